@@ -51,7 +51,7 @@ def compile_all(ctx, b, san, levels=(1, 3, 5), variants=("dim2", "heur", "hd"), 
 SAN_RE = re.compile(r"(ERROR: AddressSanitizer: [a-z\-A-Z]+|runtime error: [^\n]{0,160}|LeakSanitizer[^\n]*)")
 
 
-def run_probe(exe, ops, env=None, timeout=600):
+def run_probe(exe, ops, env=None, timeout=600, keep=False):
     """returns dict(rc, results[list of R-lines], crash(None|str), where(op that was running), stderr_tail, fired)"""
     e = dict(os.environ)
     for k in list(e):
@@ -92,8 +92,12 @@ def run_probe(exe, ops, env=None, timeout=600):
         elif where and l.startswith(where):
             where = None
     fired = len(re.findall(r"verif-h2: fired", err))
-    return dict(rc=rc, results=res, crash=crash, where=where if crash else None, stderr=err[-1500:], fired=fired,
-                wall=round(time.time() - t, 2))
+    d = dict(rc=rc, results=res, crash=crash, where=where if crash else None, stderr=err[-1500:], fired=fired,
+             wall=round(time.time() - t, 2))
+    if keep:
+        d["stderr_full"] = err
+        d["raw_out"] = out
+    return d
 
 
 def parse_sign(line):
@@ -106,8 +110,8 @@ def parse_sign(line):
     return d
 
 
-def run_many(jobs, workers=16):
+def run_many(jobs, workers=16, keep=False):
     """jobs: list of (key, exe, ops, env, timeout) -> dict key -> result"""
     with ThreadPoolExecutor(workers) as ex:
-        futs = {j[0]: ex.submit(run_probe, j[1], j[2], j[3], j[4]) for j in jobs}
+        futs = {j[0]: ex.submit(run_probe, j[1], j[2], j[3], j[4], keep) for j in jobs}
         return {k: f.result() for k, f in futs.items()}
